@@ -62,9 +62,18 @@ type FileSpec struct {
 	PLen   int     `json:"plen"`
 	Tape   uint64  `json:"tape"`
 	Armor  bool    `json:"armor"`
+	ZTail  int     `json:"ztail,omitempty"` // the last ZTail bytes of the plaintext are zero (all of it if ZTail >= PLen): sparse-looking data, padding of archives
 }
 
-func (f FileSpec) Plain() []byte { return core.Pattern(f.PSeed, f.PLen) }
+func (f FileSpec) Plain() []byte {
+	p := core.Pattern(f.PSeed, f.PLen)
+	for i := len(p) - f.ZTail; i < len(p); i++ {
+		if i >= 0 {
+			p[i] = 0
+		}
+	}
+	return p
+}
 
 func (f FileSpec) Skeleton() string {
 	s := ""
